@@ -85,6 +85,7 @@ static void op_snapread(thr_t *t) {
 }
 static void op_scan(thr_t *t) {
   ldb_readopt_t ro = *ldb_iteropt_default; ldb_iter_t *it; int dir = trn(t, 2), n = 0; char items[2048]; int p = 0;
+  items[0] = 0;   /* an empty scan must print an empty list, not what an earlier call left on the stack */
   ro.verify_checksums = trn(t, 2);
   EV("Call", "\"op\":\"scan\",\"dir\":%d", dir);
   it = ldb_iterator(db, &ro);
